@@ -187,7 +187,7 @@ pub fn replay(case: &Value) -> Result<Verdict, String> {
 }
 
 fn clause_strategy() -> BoxedStrategy<Clause> {
-    ("[ugoa]{1,4}", prop::sample::select(vec!['+', '-', '=']), "[rwx]{1,4}").prop_map(|(who, op, perm)| Clause { who, op, perm }).boxed()
+    (prop_oneof![4 => "[ugoa]{1,4}", 1 => "[ugoa]{5,12}"], prop::sample::select(vec!['+', '-', '=']), prop_oneof![4 => "[rwx]{1,4}", 1 => "[rwx]{5,12}"]).prop_map(|(who, op, perm)| Clause { who, op, perm }).boxed()
 }
 
 pub fn run(ctx: &Ctx) -> Report {
@@ -203,9 +203,14 @@ pub fn run(ctx: &Ctx) -> Report {
                 if v <= 0o777 {
                     spellings.push(format!("{v:03o}"));
                 }
-                // longer spellings with leading zeros (a sample of the values gets one of 5..10 digits)
+                // longer spellings with leading zeros (a sample of the values gets one of 5..10 digits,
+                // a smaller one 11..40 digits)
                 if v % 5 == 0 || v % 8 == 0 {
                     let w = 5 + (v as usize % 6);
+                    spellings.push(format!("{v:0w$o}"));
+                }
+                if v % 7 == 0 {
+                    let w = 11 + (v as usize / 7 % 30);
                     spellings.push(format!("{v:0w$o}"));
                 }
                 for d in spellings {
